@@ -966,8 +966,10 @@ package lang
 //@ spec func prefixOK(r parseRule, t TokenTag) bool = r.prefix == (isLiteralTag(t) ? fn("literal") : ((t == Dollar || t == Ident) ? fn("identifier") : (t == LSquare ? fn("array") : (t == LParen ? fn("group") : ((t == Plus || t == Minus || t == Bang || t == PlusPlus || t == MinusMinus) ? fn("unary") : (t == Divide ? fn("regex") : (t == Match ? fn("match") : (t == LCurly ? fn("object") : nil))))))))
 //@ spec func infixOK(r parseRule, t TokenTag) bool = r.infix == (t == LSquare ? fn("computedMember") : (t == Dot ? fn("member") : (t == LParen ? fn("call") : (t == Equal ? fn("assign") : (t == Is ? fn("is") : ((t == PlusPlus || t == MinusMinus) ? fn("postfix") : ((isCompareTag(t) || t == Plus || t == Minus || t == Multiply || t == Divide || t == Percent || isCompoundTag(t) || t == AmpAmp || t == PipePipe) ? fn("binary") : nil)))))))
 //@ spec func opaque tableOK(m map[TokenTag]parseRule) bool = forall t TokenTag :: (inTable(t) ==> has(m, t) && m[t].prec == specPrec(t) && prefixOK(m[t], t) && infixOK(m[t], t)) && (!inTable(t) ==> !has(m, t))
-//@ spec func parserOK(p *Parser) bool = p != nil && p.lexer != nil && lexOK(p.lexer) && p.current != nil && p.rules != nil && tableOK(p.rules) && (p.current.Tag != EOF ==> p.lexer.tokenStart < p.lexer.pos)
-//@ modset parserState = p.current, p.previous, p.didEndStatement, p.inLoop, p.inFunction, p.lexer.pos, p.lexer.tokenStart
+// p.depth counts the expressions and statements being parsed; C01: it never exceeds the limit, so the
+// recursive descent cannot overflow the Go stack on deeply nested program text.
+//@ spec func parserOK(p *Parser) bool = p != nil && p.lexer != nil && lexOK(p.lexer) && p.current != nil && p.rules != nil && tableOK(p.rules) && (p.current.Tag != EOF ==> p.lexer.tokenStart < p.lexer.pos) && 0 <= p.depth && p.depth <= parseDepthLimit
+//@ modset parserState = p.current, p.previous, p.didEndStatement, p.inLoop, p.inFunction, p.depth, p.lexer.pos, p.lexer.tokenStart
 
 // Every parsing function: syntax errors only, a node on success, the loop/function context flags
 // restored, nothing but the parser's own cursor state (and fresh nodes) written, no output.
@@ -977,7 +979,7 @@ package lang
 //@   modifies arg0.current, arg0.previous, arg0.didEndStatement, arg0.inLoop, arg0.inFunction, arg0.lexer.pos, arg0.lexer.tokenStart
 //@   ensures[C01] errkind: result1 == nil || isSyn(result1)
 //@   ensures[C01] node: result1 == nil ==> result0 != nil
-//@   ensures[C07,C11] context-restored: arg0.inLoop == old(arg0.inLoop) && arg0.inFunction == old(arg0.inFunction)
+//@   ensures[C07,C11] context-restored: arg0.inLoop == old(arg0.inLoop) && arg0.inFunction == old(arg0.inFunction) && arg0.depth == old(arg0.depth)
 //@   ensures ok: parserOK(arg0) && (result1 == nil ==> arg0.previous != nil)
 //@ functype parseRule.infix
 //@   requires parserOK(arg0) && arg1 != nil && has(arg0.rules, arg0.current.Tag) && arg0.rules[arg0.current.Tag].infix == thisfn()
@@ -985,7 +987,7 @@ package lang
 //@   modifies arg0.current, arg0.previous, arg0.didEndStatement, arg0.inLoop, arg0.inFunction, arg0.lexer.pos, arg0.lexer.tokenStart
 //@   ensures[C01] errkind: result1 == nil || isSyn(result1)
 //@   ensures[C01] node: result1 == nil ==> result0 != nil
-//@   ensures[C07,C11] context-restored: arg0.inLoop == old(arg0.inLoop) && arg0.inFunction == old(arg0.inFunction)
+//@   ensures[C07,C11] context-restored: arg0.inLoop == old(arg0.inLoop) && arg0.inFunction == old(arg0.inFunction) && arg0.depth == old(arg0.depth)
 //@   ensures ok: parserOK(arg0) && (result1 == nil ==> arg0.previous != nil)
 
 //@ func Parser.error [C01,C12]
@@ -1004,7 +1006,7 @@ package lang
 //@   ensures[C13] newline-skipped: err == nil ==> p.current != nil && p.current.Tag != Newline && (p.current.Tag != EOF ==> p.lexer.tokenStart < p.lexer.pos)
 //@   ensures strict: err != nil ==> p.lexer.tokenStart < p.lexer.pos
 //@   ensures previous: err == nil ==> p.previous == old(p.current)
-//@   ensures ok: p.lexer == old(p.lexer) && lexOK(p.lexer) && p.rules == old(p.rules) && (old(p.current) != nil ==> p.current != nil) && p.inLoop == old(p.inLoop) && p.inFunction == old(p.inFunction) && (old(p.previous) != nil && old(p.current) != nil ==> p.previous != nil)
+//@   ensures ok: p.lexer == old(p.lexer) && lexOK(p.lexer) && p.rules == old(p.rules) && (old(p.current) != nil ==> p.current != nil) && p.inLoop == old(p.inLoop) && p.inFunction == old(p.inFunction) && p.depth == old(p.depth) && (old(p.previous) != nil && old(p.current) != nil ==> p.previous != nil)
 
 //@ func Parser.consume [C01]
 //@   requires parserOK(p)
@@ -1012,7 +1014,7 @@ package lang
 //@   modifies parserState
 //@   ensures[C01] errkind: result == nil || isSyn(result)
 //@   ensures previous: result == nil ==> p.previous != nil && p.previous == old(p.current) && (exists k int :: 0 <= k && k < len(tags) && tags[k] == p.previous.Tag)
-//@   ensures ok: parserOK(p) && p.inLoop == old(p.inLoop) && p.inFunction == old(p.inFunction) && (old(p.previous) != nil ==> p.previous != nil)
+//@   ensures ok: parserOK(p) && p.inLoop == old(p.inLoop) && p.inFunction == old(p.inFunction) && p.depth == old(p.depth) && (old(p.previous) != nil ==> p.previous != nil)
 //@   loop 0 invariant ok: parserOK(p) && (match ==> (exists k int :: 0 <= k && k < len(tags) && tags[k] == p.current.Tag))
 //@   loop 1 invariant ok: parserOK(p)
 
@@ -1022,7 +1024,7 @@ package lang
 //@   ensures[C13] what-ends-a-statement: result == (old(p.didEndStatement) || old(p.current.Tag) == RCurly || old(p.current.Tag) == SemiColon)
 //@   ensures[C13] only-a-semicolon-is-consumed: !(old(p.current.Tag) == SemiColon && !old(p.didEndStatement)) ==> p.current == old(p.current) && p.didEndStatement == old(p.didEndStatement)
 //@   modifies parserState
-//@   ensures ok: parserOK(p) && p.inLoop == old(p.inLoop) && p.inFunction == old(p.inFunction) && (old(p.previous) != nil ==> p.previous != nil)
+//@   ensures ok: parserOK(p) && p.inLoop == old(p.inLoop) && p.inFunction == old(p.inFunction) && p.depth == old(p.depth) && (old(p.previous) != nil ==> p.previous != nil)
 
 //@ func Parser.block [C01,C07,C13]
 //@   requires parserOK(p)
@@ -1031,9 +1033,9 @@ package lang
 //@   updates nothing
 //@   modifies parserState
 //@   ensures[C01] errkind: err == nil || isSyn(err)
-//@   ensures[C07,C11] context-restored: p.inLoop == old(p.inLoop) && p.inFunction == old(p.inFunction)
+//@   ensures[C07,C11] context-restored: p.inLoop == old(p.inLoop) && p.inFunction == old(p.inFunction) && p.depth == old(p.depth)
 //@   ensures ok: parserOK(p)
-//@   loop 0 invariant ok: parserOK(p) && p.inLoop == old(p.inLoop) && p.inFunction == old(p.inFunction) && p.previous != nil
+//@   loop 0 invariant ok: parserOK(p) && p.inLoop == old(p.inLoop) && p.inFunction == old(p.inFunction) && p.depth == old(p.depth) && p.previous != nil
 
 //@ func Parser.statement [C01,C07,C11,C13]
 //@   requires parserOK(p) && p.previous != nil
@@ -1041,7 +1043,7 @@ package lang
 //@   modifies parserState
 //@   ensures[C01] errkind: err == nil || isSyn(err)
 //@   ensures[C01] node: err == nil ==> result0 != nil
-//@   ensures[C07,C11] context-restored: p.inLoop == old(p.inLoop) && p.inFunction == old(p.inFunction)
+//@   ensures[C07,C11] context-restored: p.inLoop == old(p.inLoop) && p.inFunction == old(p.inFunction) && p.depth == old(p.depth)
 //@   ensures[C11] break-needs-loop: err == nil && (istype(result0, *StatementBreak) || istype(result0, *StatementContinue)) ==> old(p.inLoop)
 //@   ensures[C11] return-needs-function: err == nil && istype(result0, *StatementReturn) ==> old(p.inFunction)
 //@   assert[C11] loop-header-outside-loop-context: p.inLoop == old(p.inLoop) && p.inFunction == old(p.inFunction) @ Parser.expression
@@ -1056,7 +1058,7 @@ package lang
 //@   modifies parserState
 //@   ensures[C01] errkind: err == nil || isSyn(err)
 //@   ensures[C01] node: err == nil ==> result0 != nil
-//@   ensures[C07,C11] context-restored: p.inLoop == old(p.inLoop) && p.inFunction == old(p.inFunction)
+//@   ensures[C07,C11] context-restored: p.inLoop == old(p.inLoop) && p.inFunction == old(p.inFunction) && p.depth == old(p.depth)
 //@   assert[C07] body-in-loop-context: p.inLoop @ Parser.statement
 //@   ensures ok: parserOK(p) && (err == nil ==> p.previous != nil)
 
@@ -1077,9 +1079,9 @@ package lang
 //@   loop 0 invariant[C13] not-yet-ended: !$sawEnd
 //@   modifies parserState
 //@   ensures[C01] errkind: err == nil || isSyn(err)
-//@   ensures[C07,C11] context-restored: p.inLoop == old(p.inLoop) && p.inFunction == old(p.inFunction)
+//@   ensures[C07,C11] context-restored: p.inLoop == old(p.inLoop) && p.inFunction == old(p.inFunction) && p.depth == old(p.depth)
 //@   ensures ok: parserOK(p) && (err == nil ==> p.previous != nil)
-//@   loop 0 invariant ok: parserOK(p) && p.inLoop == old(p.inLoop) && p.inFunction == old(p.inFunction) && p.previous != nil
+//@   loop 0 invariant ok: parserOK(p) && p.inLoop == old(p.inLoop) && p.inFunction == old(p.inFunction) && p.depth == old(p.depth) && p.previous != nil
 
 //@ func Parser.expression [C01,C06]
 //@   requires parserOK(p)
@@ -1087,7 +1089,7 @@ package lang
 //@   modifies parserState
 //@   ensures[C01] errkind: err == nil || isSyn(err)
 //@   ensures[C01] node: err == nil ==> result0 != nil
-//@   ensures[C07,C11] context-restored: p.inLoop == old(p.inLoop) && p.inFunction == old(p.inFunction)
+//@   ensures[C07,C11] context-restored: p.inLoop == old(p.inLoop) && p.inFunction == old(p.inFunction) && p.depth == old(p.depth)
 //@   assert[C06] whole-expression-level: arg1 == PrecAssign @ Parser.expressionWithPrec
 //@   ensures ok: parserOK(p) && (err == nil ==> p.previous != nil)
 
@@ -1101,18 +1103,18 @@ package lang
 //@   ensures[C01] errkind: err == nil || isSyn(err)
 //@   ensures[C01] node: err == nil ==> result0 != nil
 //@   ensures[C06] stops-at-looser-operator: err == nil ==> precAt(p) < prec
-//@   ensures[C07,C11] context-restored: p.inLoop == old(p.inLoop) && p.inFunction == old(p.inFunction)
+//@   ensures[C07,C11] context-restored: p.inLoop == old(p.inLoop) && p.inFunction == old(p.inFunction) && p.depth == old(p.depth)
 //@   ensures ok: parserOK(p) && (err == nil ==> p.previous != nil)
-//@   loop 0 invariant ok: parserOK(p) && p.inLoop == old(p.inLoop) && p.inFunction == old(p.inFunction) && lhs != nil && p.previous != nil
+//@   loop 0 invariant ok: parserOK(p) && p.inLoop == old(p.inLoop) && p.inFunction == old(p.inFunction) && p.depth == old(p.depth) + 1 && lhs != nil && p.previous != nil
 
 //@ func Parser.evalExprList [C01]
 //@   requires parserOK(p)
 //@   updates nothing
 //@   modifies parserState
 //@   ensures[C01] errkind: err == nil || isSyn(err)
-//@   ensures[C07,C11] context-restored: p.inLoop == old(p.inLoop) && p.inFunction == old(p.inFunction)
+//@   ensures[C07,C11] context-restored: p.inLoop == old(p.inLoop) && p.inFunction == old(p.inFunction) && p.depth == old(p.depth)
 //@   ensures ok: parserOK(p) && (err == nil ==> p.previous != nil)
-//@   loop 0 invariant ok: parserOK(p) && p.inLoop == old(p.inLoop) && p.inFunction == old(p.inFunction)
+//@   loop 0 invariant ok: parserOK(p) && p.inLoop == old(p.inLoop) && p.inFunction == old(p.inFunction) && p.depth == old(p.depth)
 
 //@ func Parser.rewriteCompundAssingment [C01,C09,C12]
 //@   requires p != nil && left != nil && right != nil && (opToken.Tag == PlusEqual || opToken.Tag == MinusEqual || opToken.Tag == MultiplyEqual || opToken.Tag == DivideEqual)
@@ -1127,7 +1129,7 @@ package lang
 //@   updates nothing
 //@   modifies parserState
 //@   ensures[C01] errkind: err == nil || isSyn(err)
-//@   ensures[C07,C11] context-restored: p.inLoop == old(p.inLoop) && p.inFunction == old(p.inFunction)
+//@   ensures[C07,C11] context-restored: p.inLoop == old(p.inLoop) && p.inFunction == old(p.inFunction) && p.depth == old(p.depth)
 //@   ensures ok: parserOK(p)
 
 //@ func Parser.parseFunction [C01,C07,C11]
@@ -1135,13 +1137,13 @@ package lang
 //@   updates nothing
 //@   modifies parserState
 //@   ensures[C01] errkind: err == nil || isSyn(err)
-//@   ensures[C07,C11] context-restored: p.inLoop == old(p.inLoop) && p.inFunction == old(p.inFunction)
+//@   ensures[C07,C11] context-restored: p.inLoop == old(p.inLoop) && p.inFunction == old(p.inFunction) && p.depth == old(p.depth)
 //@   assert[C07] body-in-function-context: p.inFunction @ Parser.block
 //@   ensures ok: parserOK(p)
 //@   loop 0 invariant ok: parserOK(p) && p.inLoop == old(p.inLoop) && p.inFunction
 
 //@ func Parser.ParseExpression [C01,C11,C14]
-//@   requires p != nil && p.lexer != nil && lexOK(p.lexer) && p.rules != nil && tableOK(p.rules)
+//@   requires p != nil && p.lexer != nil && lexOK(p.lexer) && p.rules != nil && tableOK(p.rules) && p.depth == 0 && 0 < parseDepthLimit
 //@   updates nothing
 //@   modifies parserState
 //@   ensures[C11,C14] nothing-follows-the-expression: err == nil ==> p.previous != nil && p.previous.Tag == EOF
@@ -1149,7 +1151,7 @@ package lang
 //@   ensures[C01] node: err == nil ==> result0 != nil
 
 //@ func Parser.Parse [C01,C11]
-//@   requires p != nil && p.lexer != nil && lexOK(p.lexer) && p.rules != nil && tableOK(p.rules) && !p.inLoop && !p.inFunction
+//@   requires p != nil && p.lexer != nil && lexOK(p.lexer) && p.rules != nil && tableOK(p.rules) && !p.inLoop && !p.inFunction && p.depth == 0 && 0 < parseDepthLimit
 //@   updates nothing
 //@   modifies parserState
 //@   ensures[C01] errkind: err == nil || isSyn(err)
@@ -1160,7 +1162,7 @@ package lang
 //@   requires l != nil
 //@   updates nothing
 //@   modifies nothing
-//@   ensures ready: result.lexer == l && result.rules != nil && result.current == nil && !result.inLoop && !result.inFunction
+//@   ensures ready: result.lexer == l && result.rules != nil && result.current == nil && !result.inLoop && !result.inFunction && result.depth == 0 && 0 < parseDepthLimit
 //@   ensures[C06] table-is-the-ladder: tableOK(result.rules)
 
 //@ func literal [C01,C06]
@@ -1179,12 +1181,12 @@ package lang
 
 //@ func object [C01,C06]
 //@   implements parseRule.prefix
-//@   loop 0 invariant ok: parserOK(p) && p.inLoop == old(p.inLoop) && p.inFunction == old(p.inFunction)
+//@   loop 0 invariant ok: parserOK(p) && p.inLoop == old(p.inLoop) && p.inFunction == old(p.inFunction) && p.depth == old(p.depth)
 
 //@ func match [C01,C06]
 //@   implements parseRule.prefix
-//@   loop 0 invariant ok: parserOK(p) && p.inLoop == old(p.inLoop) && p.inFunction == old(p.inFunction) && p.previous != nil
-//@   loop 1 invariant ok: parserOK(p) && p.inLoop == old(p.inLoop) && p.inFunction == old(p.inFunction) && p.previous != nil
+//@   loop 0 invariant ok: parserOK(p) && p.inLoop == old(p.inLoop) && p.inFunction == old(p.inFunction) && p.depth == old(p.depth) && p.previous != nil
+//@   loop 1 invariant ok: parserOK(p) && p.inLoop == old(p.inLoop) && p.inFunction == old(p.inFunction) && p.depth == old(p.depth) && p.previous != nil
 
 //@ func group [C01,C06]
 //@   implements parseRule.prefix
